@@ -8,6 +8,7 @@
 #include <strings.h>
 
 extern "C" {
+void c01_read_schedule(int, int);
 void c01_init(int cls); int c01_exists(int);
 int c01_new(int); int c01_new_from_ptr(int, const char *, long, int); int c01_new_from_buff(int, const char *, long, long, int, int);
 int c01_new_from_num(int, long, int); int c01_new_from_fp(int, const char *, long, int, int, int, const char *);
@@ -234,6 +235,12 @@ struct Interp {
                 if (skip) ctx.label("ctor:fp-second-line");
                 if (line.size() > 4094) interesting = true;
             } else {
+                static const int caps[] = {0, 1, 100, 4095, 5000};
+                int cap = caps[((op.i(3) % 5) + 5) % 5], eintr = (int)(((op.i(4) % 3) + 3) % 3);
+                if (cap == 1 && t.size() > 6000) cap = 100;
+                c01_read_schedule(cap, eintr);
+                if (cap) ctx.label("fd:short-reads");
+                if (eintr) ctx.label("fd:EINTR");
                 r = c01_new_from_fd(i, t.data(), (long)t.size(), kind, reinit, config().scratch_dir.c_str());
                 mo.text = t;
                 ctx.label("ctor:fd");
@@ -679,7 +686,7 @@ rc::Gen<Op> gen_stream_ctor(const std::string &prefix) {
         else { if (tk == 0) tail = ""; else if (tk == 1) tail = "\n"; else tail = *gen_unit(); }
         if (!fp) { for (auto &ch : unit) if (ch == 0) ch = 'n'; }
         if (fp) { for (auto &ch : unit) if (ch == '\n') ch = ' '; }
-        o.ints = {rep, *range(0, 1), fp ? *range(0, 2) : 0};
+        o.ints = {rep, *range(0, 1), fp ? *range(0, 2) : 0, *range(0, 2) == 0 ? *range(1, 4) : 0, *range(0, 3) == 0 ? *range(1, 2) : 0};
         o.strs = {unit, tail};
         return o;
     });
